@@ -188,6 +188,10 @@ func main() {
 	consts := map[string]int{}
 	errCaps := map[string]string{} // function -> capacity expression of its error channel
 	var fns []fn
+	// per declared function: goroutine literals it contains, named goroutine bodies it starts
+	// (`go recv.m(...)`, `go f(...)`) and the helpers it calls directly
+	type startInfo struct{ lits, named, calls []string }
+	starts := map[string]*startInfo{}
 	for _, name := range files {
 		af, err := parser.ParseFile(fset, filepath.Join(repo, name), nil, 0)
 		if err != nil {
@@ -229,14 +233,45 @@ func main() {
 			}
 			// the function body itself (workers are ordinary methods)
 			fns = append(fns, scanBody(fname, name, fd.Body, consts))
+			recvName, recvType := "", ""
+			if fd.Recv != nil && len(fd.Recv.List) > 0 && strings.Contains(fname, ".") {
+				recvType = strings.SplitN(fname, ".", 2)[0]
+				if len(fd.Recv.List[0].Names) > 0 {
+					recvName = fd.Recv.List[0].Names[0].Name
+				}
+			}
+			calleeName := func(e ast.Expr) string {
+				switch c := e.(type) {
+				case *ast.Ident:
+					return c.Name
+				case *ast.SelectorExpr:
+					if id, ok := c.X.(*ast.Ident); ok && recvName != "" && id.Name == recvName {
+						return recvType + "." + c.Sel.Name
+					}
+				}
+				return ""
+			}
+			si := &startInfo{}
+			starts[fname] = si
+			goCalls := map[*ast.CallExpr]bool{}
 			// goroutine literals started inside it
 			k := 0
 			ast.Inspect(fd.Body, func(n ast.Node) bool {
 				switch x := n.(type) {
 				case *ast.GoStmt:
+					goCalls[x.Call] = true
 					if fl, ok := x.Call.Fun.(*ast.FuncLit); ok {
 						k++
 						fns = append(fns, scanBody(fmt.Sprintf("%s.go%d", fname, k), name, fl.Body, consts))
+						si.lits = append(si.lits, fmt.Sprintf("%s.go%d", fname, k))
+					} else if n := calleeName(x.Call.Fun); n != "" {
+						si.named = append(si.named, n)
+					}
+				case *ast.CallExpr:
+					if !goCalls[x] {
+						if n := calleeName(x.Fun); n != "" {
+							si.calls = append(si.calls, n)
+						}
 					}
 				case *ast.AssignStmt:
 					// errc := make(chan error[, n])
@@ -306,6 +341,65 @@ func main() {
 		en = append(en, k)
 	}
 	sort.Strings(en)
+	// goroutines an entry/stage function starts, directly or through the helpers it calls
+	var closure func(f string, seen map[string]bool) (lits, named []string)
+	closure = func(f string, seen map[string]bool) (lits, named []string) {
+		si := starts[f]
+		if si == nil || seen[f] {
+			return nil, nil
+		}
+		seen[f] = true
+		lits = append(lits, si.lits...)
+		for _, n := range si.named {
+			if starts[n] != nil {
+				named = append(named, n)
+			}
+		}
+		for _, c := range si.calls {
+			l, n := closure(c, seen)
+			lits = append(lits, l...)
+			named = append(named, n...)
+		}
+		return
+	}
+	uniq := func(l []string) []string {
+		sort.Strings(l)
+		var o []string
+		for i, x := range l {
+			if i == 0 || x != l[i-1] {
+				o = append(o, x)
+			}
+		}
+		return o
+	}
+	qlist := func(l []string) string {
+		q := make([]string, len(l))
+		for i, x := range l {
+			q[i] = strconv.Quote(x)
+		}
+		return "[" + strings.Join(q, "; ") + "]"
+	}
+	var sn []string
+	for k := range starts {
+		sn = append(sn, k)
+	}
+	sort.Strings(sn)
+	b.WriteString("(* (function, goroutine literals it starts itself or through the helpers it calls, named goroutine bodies it starts) *)\n")
+	b.WriteString("Definition starts : list (string * list string * list string) := [\n")
+	first := true
+	for _, k := range sn {
+		l, n := closure(k, map[string]bool{})
+		l, n = uniq(l), uniq(n)
+		if len(l)+len(n) == 0 {
+			continue
+		}
+		if !first {
+			b.WriteString(";\n")
+		}
+		first = false
+		b.WriteString(fmt.Sprintf("  (%q, %s, %s)", k, qlist(l), qlist(n)))
+	}
+	b.WriteString("\n].\n\n")
 	b.WriteString("Definition err_channel_capacity : list (string * nat) := [\n")
 	for i, k := range en {
 		sep := ";"
